@@ -9,9 +9,16 @@ COMMON_NOTE = ("Trusted: Lean 4.33 kernel; axioms propext/Classical.choice/Quot.
                "The theorems are about the hand-written Lean model; the tie to /repo is the regenerated tables plus the "
                "correspondence run, which is sampling (bounded-exhaustive + random), not proof. ")
 
+CLI_NOTE = ("CLI correspondence: seeded command histories on real temporary projects (real gwf CLI in-process, fake sbatch/squeue/sacct/scancel on PATH sharing a simulated cluster); "
+            "after every command the persistent state (file tree with contents, tracked-jobs file, spec-hash file, cluster jobs, scheduler call log, CLI output) is compared with the Lean world model's prediction from the state observed before the command. ")
 POOL_NOTE = ("The theorems are about the labelled transition system GwfModel/Pool.lean (labels = the events observable on the real Scheduler). "
              "That asyncio realises only enabled transitions is VALIDATED by trace acceptance on the explored schedules (virtual clock, fake subprocess, instrumented semaphore/state table; fine-grained settling so cancels hit every await point), not proved. ")
 CHECKS = {
+ "C05": dict(
+   text="Theorems for ALL acyclic workflows / backend vectors / file states / selections: a target is in the submission log of the scheduling pass iff the same pass caches it as shouldrun/failed/cancelled (submitted_iff_shown_needing_run), targets cached submitted/running/completed are not submitted, any selection-restricted pass shows the same status as the full table (one table), run submits exactly the plan that dry-run announces (same function), each accepted submission adds one pending job with the tracked ids of its prerequisites and touches no file, every filter combination is the stated restriction of the one table (filters_restrict), and on an invalid workflow every command fails and yields no new state (commands_inert_on_error).",
+   note=CLI_NOTE + "In the model the previews are pure by type (they return no World); that the real status/dry-run change nothing (file tree, logs, tracked ids, hashes, no submit/cancel calls) is checked on every explored history.",
+   technique="Lean 4 proof (corollaries of the schedule refinement theorem over the world model) + CLI history correspondence",
+   design="§6-C05"),
  "C11": dict(
    text="Theorems for EVERY reachable state of the pool LTS (any number of tasks, any DAG, any interleaving of exits with any code, time-outs, cancel requests at any point, late submissions, any core count): the start label is enabled only when every dependency is a finished COMPLETED task; a started task's dependencies all finished COMPLETED with exit code 0 (started_after_deps_completed); a finished task never changes, so a completed dependency stays completed; if a dependency ended failed/killed/cancelled the dependent is never started and never COMPLETED (failed_dep_blocks) and carries that dependency's state (dependent_inherits_state). Invariant proved by induction over all label sequences (step_ginv).",
    note=POOL_NOTE + "Trace oracle PoolSpec (C11 conjuncts) is evaluated on every observed trace independently of the model's guards.",
